@@ -77,3 +77,33 @@ Qed.
 Lemma repaired_close_not_stuck :
   exists c, owned c = true /\ step repaired (run repaired stuck_init stuck_sched) c <> None.
 Proof. exists (Reader RSawDone). split; [reflexivity|]. vm_compute. discriminate. Qed.
+
+(* non-vacuity for the flush theorems with a packet the encoder refuses in the middle of the
+   backlog: it is dropped, the packets queued after it still arrive *)
+Definition pbad := mkpkt 2 0 false.
+Definition refused_init := init 8 8 1 1 false true false [[p1; pbad; p3]] [(true, 1%Z)] [] [] [].
+Definition refused_sched : list choice :=
+  [Sender 0; Sender 0; Sender 0; Sender 0; Sender 0; Sender 0;
+   Closer 0; Closer 0; Closer 0; Closer 0;
+   Writer WSawDone;
+   Writer WDeq; Writer WStep; Writer WStep;
+   Writer WDeq; Writer WStep;
+   Writer WDeq; Writer WStep; Writer WStep;
+   Writer WFlushEnd; Writer WStep;
+   Closer 0; Closer 0; Closer 0; Closer 0; Closer 0].
+
+Lemma repaired_refused_in_the_middle :
+  let s := run repaired refused_init refused_sched in
+  map cp (closers s) = [CRet true] /\ fin s = true /\ wbroken s = false /\
+  acc_cas s = [p1; pbad; p3] /\ wire s = [p1; p3] /\ gone s = [p1; pbad; p3].
+Proof. vm_compute. repeat split; reflexivity. Qed.
+
+(* an overflow: queue of one slot, two sends while the writer is idle *)
+Definition overflow_init := init 1 8 1 1 false true false [[p1; p2]] [(true, 1%Z)] [] [] [].
+Lemma repaired_overflow_then_close :
+  let s := run repaired overflow_init
+             [Sender 0; Sender 0; Sender 0; Sender 0;
+              Closer 0; Closer 0; Closer 0; Closer 0; Writer WSawDone; Writer WDeq; Writer WStep; Writer WStep;
+              Writer WFlushEnd; Writer WStep; Closer 0; Closer 0; Closer 0; Closer 0; Closer 0] in
+  map results (senders s) = [[(1%Z, 0%Z); (2%Z, 2%Z)]] /\ map cp (closers s) = [CRet true] /\ wire s = [p1] /\ fin s = true.
+Proof. vm_compute. repeat split; reflexivity. Qed.
